@@ -34,7 +34,7 @@ pub trait WriteSource {
             if let Some(s) = self.write(opt.clone()) {
                 return s;
             } else {
-                opt.max_width += opt.max_width / 2;
+                opt.max_width = opt.max_width.saturating_add(opt.max_width / 2);
                 opt.reset_line();
             }
         }
@@ -109,7 +109,12 @@ impl WriteOpt {
         }
     }
 
-    fn consume_width(&mut self, width: u16) -> Option<()> {
+    fn consume_width(&mut self, width: usize) -> Option<()> {
+        // The largest width is no limit at all: there is nothing wider to retry with.
+        if self.max_width == u16::MAX {
+            return Some(());
+        }
+        let width = u16::try_from(width).ok()?;
         self.rem_width = self.rem_width.checked_sub(width)?;
         Some(())
     }
@@ -127,7 +132,7 @@ impl WriteOpt {
         } else {
             source.as_ref().len()
         };
-        self.consume_width(width as u16)?;
+        self.consume_width(width)?;
         Some(source)
     }
 
@@ -189,13 +194,13 @@ impl<T: WriteSource> SeparatedExprs<'_, T> {
             if expr.contains('\n') {
                 return None;
             }
-            opt.consume_width(expr.len() as u16)?;
+            opt.consume_width(expr.len())?;
 
             exprs.push(expr);
         }
 
         let separators = self.inline.len() * (exprs.len().checked_sub(1).unwrap_or_default());
-        opt.consume_width(separators as u16)?;
+        opt.consume_width(separators)?;
 
         Some(exprs.join(self.inline))
     }
